@@ -278,6 +278,13 @@ class C16(Check):
             yield ("prot", name, s)
         for i, s in enumerate(ERR):
             yield ("err", i, s)
+        # boundary-count programs (nesting depth, 254..300 locals/fields/methods/arguments/captures, wide constants): accepted ones must run without a crash
+        from checks import c15
+        for name, src in c15.boundary_family(th):
+            if len(src) < 600000:
+                yield ("bound", name, src)
+        for n in (255, 256, 257):
+            yield ("bound", "inherited_fields%d" % n, "class A { init() { " + " ".join("self.a%d = 1;" % i for i in range(200)) + " } } class B : A { init() { super.init(); " + " ".join("self.b%d = 2;" % i for i in range(n - 200)) + " } } print(B().a0);")
 
     def source(self, spec):
         k = spec[0]
@@ -303,6 +310,8 @@ class C16(Check):
             return PRE + "print('M'); let v = %s; v[%s] = %s; print('done');" % (spec[1], spec[2], spec[3])
         if k == "prop":
             return PRE + "print('M'); let v = %s; let k = %s; v.len = k; print('done');" % (spec[1], spec[2])
+        if k == "bound":
+            return PRE + "print('M'); " + spec[2]
         if k in ("rec", "selfc", "prot", "err"):
             return PRE + "print('M'); " + spec[2]
         raise ValueError(k)
@@ -312,7 +321,7 @@ class C16(Check):
 
     def build(self, spec):
         case = {"src": self.source(spec)}
-        if spec[0] in ("rec", "selfc"):
+        if spec[0] in ("rec", "selfc", "bound"):
             case["step_limit"] = 30000000
         else:
             case["step_limit"] = 5000000
